@@ -31,29 +31,45 @@ const (
 	phLateFail   = "lateFail"     // socks5 client: new sessions whose initialisation fails after the control connection is up (scripted at the fake upstream)
 	phRefused    = "refused"      // every session: a burst of N datagrams the kernel refuses to send (target port 0) back to back, then a paced valid one
 	phExpiry     = "expiryProbe"  // one datagram per session timed around the instant the idle timeout fires (packet arrives while the session is torn down)
+	phReinit     = "reinit"       // round 6: N new clients whose first datagrams make session initialisation FAIL (Variant), then - from the same client address:port - a valid datagram that must start a working session
+	phRefusedMix = "refusedMix"   // round 6: every session writes N datagrams back to back of which number Pct (Variant "double": also Pct+2) is addressed to port 0 (refused by the kernel); every other one must reach the destination
 )
+
+// variants of the reinit phase: how the first attempts fail
+const (
+	reinitReject   = "reject"           // the router rejects the first datagrams' destination
+	reinitName     = "endpoint-name"    // the upstream's name does not resolve (SERVFAIL), later it does
+	reinitRefused  = "upstream-refuses" // socks5 client: the upstream's name points at an address where nothing listens (TCP connect refused), later at the live upstream
+	reinitAssocRep = "assoc-failure"    // socks5 client: the upstream answers UDP ASSOCIATE with a failure code, later normally
+)
+
+var reinitVariants = []string{reinitReject, reinitReject, reinitName, reinitRefused, reinitAssocRep}
 
 type phase struct {
 	Kind    string `json:"kind"`
 	N       int    `json:"n,omitempty"`
 	Pct     int    `json:"pct,omitempty"`     // pauseShort: percent of the NAT timeout
-	Variant string `json:"variant,omitempty"` // packFail: "unresolvable" | "toobig"
+	Variant string `json:"variant,omitempty"` // packFail: "unresolvable" | "toobig"; lateFail, reinit, refusedMix: see there
 }
 
 type plan struct {
-	Seed           uint64  `json:"seed"`
-	ServerProto    string  `json:"serverProto"`
-	ServerEIH      bool    `json:"serverEIH"`
-	BatchMode      string  `json:"batchMode"`
-	RelayBatch     int     `json:"relayBatch"`
-	SendChanCap    int     `json:"sendChanCap"`
-	ClientProto    string  `json:"clientProto"`
-	ClientEIH      bool    `json:"clientEIH"`
-	EndpointByName bool    `json:"endpointByName"`
-	ClientAuth     bool    `json:"clientAuth,omitempty"` // socks5 client with username/password
-	NATTimeoutMs   int     `json:"natTimeoutMs"`
-	NSessions      int     `json:"nSessions"`
-	Phases         []phase `json:"phases"`
+	Seed           uint64 `json:"seed"`
+	ServerProto    string `json:"serverProto"`
+	ServerEIH      bool   `json:"serverEIH"`
+	BatchMode      string `json:"batchMode"`
+	RelayBatch     int    `json:"relayBatch"`
+	SendChanCap    int    `json:"sendChanCap"`
+	ClientProto    string `json:"clientProto"`
+	ClientEIH      bool   `json:"clientEIH"`
+	EndpointByName bool   `json:"endpointByName"`
+	ClientAuth     bool   `json:"clientAuth,omitempty"` // socks5 client with username/password
+	NATTimeoutMs   int    `json:"natTimeoutMs"`
+	NSessions      int    `json:"nSessions"`
+	// Listen: listener address class (round 6): "" 127.0.0.1 | "v6" [::1] | "dual" [::] | "dualany" ":port" (both dual-stack, network "udp")
+	Listen string `json:"listen,omitempty"`
+	// ConfigForm: "" udpListeners | "legacy" deprecated single-listener fields (natTimeoutSec: whole seconds)
+	ConfigForm string  `json:"configForm,omitempty"`
+	Phases     []phase `json:"phases"`
 	// Stop is issued after the last phase, while the async phases are still running.
 	StopDelayMs int `json:"stopDelayMs"` // delay between the last phase and Stop
 	// HandshakeMs: when the last phase left SOCKS5 handshakes of new sessions held by the upstream, they
@@ -100,10 +116,17 @@ func drawPlan(rt *rapid.T) *plan {
 		p.ClientAuth = rapid.Bool().Draw(rt, "clientAuth")
 	}
 	p.NSessions = rapid.SampledFrom([]int{1, 1, 2, 3, 4, 8, 16}).Draw(rt, "nSessions")
+	if !ss {
+		// round 6: address family of the listener and the form of its configuration (NAT relays)
+		p.Listen = rapid.SampledFrom([]string{lisV4, lisV4, lisV6, lisDual, lisDual, lisDualAny}).Draw(rt, "listen")
+		p.ConfigForm = rapid.SampledFrom([]string{formListeners, formListeners, formLegacy}).Draw(rt, "configForm")
+	}
 
 	evict := !ss && rapid.IntRange(0, 9).Draw(rt, "shape") < 4
 	if !ss {
-		if evict {
+		if evict && p.ConfigForm == formLegacy {
+			p.NATTimeoutMs = rapid.SampledFrom([]int{1000, 1000, 2000}).Draw(rt, "natTimeoutEvictSec") // natTimeoutSec counts whole seconds
+		} else if evict {
 			p.NATTimeoutMs = rapid.SampledFrom([]int{300, 400, 500, 700, 1000, 2000}).Draw(rt, "natTimeoutEvict")
 		} else {
 			p.NATTimeoutMs = rapid.SampledFrom([]int{5000, 6000}).Draw(rt, "natTimeoutStop")
@@ -117,6 +140,13 @@ func drawPlan(rt *rapid.T) *plan {
 			ph.N = rapid.SampledFrom([]int{1, 8, 64, 200}).Draw(rt, "burstN")
 		case phRefused:
 			ph.N = rapid.SampledFrom([]int{2, 8, 40}).Draw(rt, "refusedN")
+		case phRefusedMix:
+			ph.N = rapid.SampledFrom([]int{3, 6, 12}).Draw(rt, "mixN")
+			ph.Pct = rapid.IntRange(0, ph.N-2).Draw(rt, "mixRefusedAt")
+			ph.Variant = rapid.SampledFrom([]string{"single", "single", "double"}).Draw(rt, "mixVariant")
+		case phReinit:
+			ph.N = rapid.IntRange(1, 3).Draw(rt, "reinitSessions")
+			ph.Variant = rapid.SampledFrom(reinitVariants).Draw(rt, "reinitVariant")
 		case phPauseShort:
 			ph.Pct = rapid.SampledFrom([]int{5, 20, 50}).Draw(rt, "pausePct")
 		case phBlockInit, phReject, phFailInit:
@@ -131,7 +161,8 @@ func drawPlan(rt *rapid.T) *plan {
 		return ph
 	}
 	if evict {
-		alphabet := []string{phEstablish, phBurst, phFlood, phPauseShort, phPauseEvict, phPauseEvict, phResend, phReject, phFailInit, phExpiry, phExpiry, phRefused}
+		alphabet := []string{phEstablish, phBurst, phFlood, phPauseShort, phPauseEvict, phPauseEvict, phResend, phReject, phFailInit, phExpiry, phExpiry, phRefused,
+			phRefusedMix, phRefusedMix, phReinit, phReinit}
 		if p.NATTimeoutMs >= 400 && p.NATTimeoutMs <= 700 {
 			alphabet = append(alphabet, phKeepAlive, phKeepAlive)
 		}
@@ -167,7 +198,7 @@ func drawPlan(rt *rapid.T) *plan {
 	} else {
 		// Stop shape: a prefix of arbitrary phases, then the traffic that is flowing when Stop comes,
 		// then optionally sessions that are being initialised at that moment
-		prefix := []string{phEstablish, phEstablish, phBurst, phPauseShort, phResend, phBlockInit, phReject, phFailInit, phStream, phFlood, phRefused}
+		prefix := []string{phEstablish, phEstablish, phBurst, phPauseShort, phResend, phBlockInit, phReject, phFailInit, phStream, phFlood, phRefused, phRefusedMix, phReinit}
 		n := rapid.IntRange(0, 3).Draw(rt, "nPrefix")
 		for i := 0; i < n; i++ {
 			p.Phases = append(p.Phases, drawPhase(prefix))
@@ -186,7 +217,7 @@ func drawPlan(rt *rapid.T) *plan {
 			}
 		}
 		if rapid.IntRange(0, 9).Draw(rt, "tail") < 4 {
-			p.Phases = append(p.Phases, drawPhase([]string{phBurst, phBlockInit, phBlockInit, phReject, phFailInit}))
+			p.Phases = append(p.Phases, drawPhase([]string{phBurst, phBlockInit, phBlockInit, phReject, phFailInit, phRefusedMix, phReinit}))
 		}
 	}
 	p.StopDelayMs = rapid.SampledFrom([]int{0, 0, 1, 5, 30}).Draw(rt, "stopDelay")
@@ -216,7 +247,14 @@ func (p *plan) stopUnderTraffic() (uplink, downlink bool) {
 func (p *plan) class() string {
 	s := ""
 	for _, ph := range p.Phases {
-		s += ph.Kind[:2] + ph.Kind[len(ph.Kind)-1:] + ","
+		switch ph.Kind {
+		case phReinit:
+			s += "rei:" + ph.Variant + ","
+		case phRefusedMix:
+			s += "rmx,"
+		default:
+			s += ph.Kind[:2] + ph.Kind[len(ph.Kind)-1:] + ","
+		}
 	}
 	nb := "1"
 	switch {
@@ -225,7 +263,8 @@ func (p *plan) class() string {
 	case p.NSessions >= 2:
 		nb = "2-4"
 	}
-	return fmt.Sprintf("%s|eih=%v|%s|%s|ceih=%v|byname=%v|T=%d|n=%s|%s", p.ServerProto, p.ServerEIH, p.BatchMode, p.ClientProto, p.ClientEIH, p.EndpointByName, p.NATTimeoutMs, nb, s) + fmt.Sprintf("|auth=%v", p.ClientAuth)
+	return fmt.Sprintf("%s|eih=%v|%s|%s|ceih=%v|byname=%v|T=%d|n=%s|%s", p.ServerProto, p.ServerEIH, p.BatchMode, p.ClientProto, p.ClientEIH, p.EndpointByName, p.NATTimeoutMs, nb, s) + fmt.Sprintf("|auth=%v", p.ClientAuth) +
+		fmt.Sprintf("|listen=%s|form=%s", listenName(p.Listen), formName(p.ConfigForm))
 }
 
 var _ = ev.IsKnown
